@@ -242,6 +242,23 @@ def gen_fit(ctx):
         other['y'] = [yi if wi > 0 else C.dyadic(rng, -64, 64, 4) for yi, wi in zip(base['y'], base['w'])]
         calls.append(('fit-zeroindep-a', base))
         calls.append(('fit-zeroindep-b', other))
+    # input classes: integer-typed y (int32 / int64 counts) with float64 x, and all-float32 problems
+    for k in range(ctx.n(6, 60)):
+        c = gen_fit_problem(rng, rng.choice(['plain', 'zeros', 'fixed', 'nowgt']))
+        c['y'] = [float(rng.randint(-9, 9)) for _ in c['y']]
+        c['ydtype'] = 'i4' if k % 2 else 'i8'
+        calls.append(('fit-inty', c))
+    for k in range(ctx.n(3, 30)):
+        while True:
+            # float32 arithmetic: only very well conditioned, low-order problems (cond < 200), judged at 1e-3
+            c = gen_fit_problem(rng, rng.choice(['plain', 'zeros', 'nowgt']))
+            ww = [1.0] * len(c['x']) if c['w'] is None else c['w']
+            ngood = sum(1 for v in ww if v > 0)
+            if c['ncoeff'] <= 3 and ngood > c['ncoeff'] and cond_ok(c['func'], c['x'], ww, c['ncoeff'], list(range(c['ncoeff'])), None, 200):
+                break
+        c['xdtype'] = c['ydtype'] = 'f4'
+        c['_nocoq'] = True          # float32 arithmetic: judged against the float64 run of the same call
+        calls.append(('fit-f4', c))
     return calls
 
 
@@ -277,7 +294,7 @@ def gen_trace(ctx):
                 c['xmin'] = math.floor(lo) - rng.choice([0, 1])
                 c['xmax'] = math.ceil(hi) + rng.choice([0, 1, 0.5])
             if k % 2 == 1:
-                jl = C.dyadic(rng, lo + 1, hi - 2, 2)
+                jl = C.dyadic(rng, lo + 1, max(lo + 1, hi - 2), 2)
                 c['jump'] = [jl, jl + C.dyadic(rng, 0.5, 2, 2), C.dyadic(rng, -1, 1, 3) or 0.25]
                 if k // 2 < len(BOUNDARY_JUMPS):
                     # boundary jump parameters: xjumplo = 0, xjumphi = 0, xjumpval = 0, negative values
@@ -301,7 +318,19 @@ def gen_trace(ctx):
                     ok = False
                     break
             if ok:
-                calls.append(('trace-' + ('jump' if c['jump'] else 'nojump'), c))
+                tag = 'trace-' + ('jump' if c['jump'] else 'nojump')
+                if k % 5 == 2:
+                    # integer-typed positions (pixel counts)
+                    c['ypos'] = [[float(round(v)) for v in row] for row in c['ypos']]
+                    c['ydtype'] = 'i8' if k % 2 else 'i4'
+                    tag += '-inty'
+                if k % 7 == 3 and nt >= 2:
+                    # one trace masked completely (no good point: coefficients and fitted values are zero)
+                    if c['ivar'] is None:
+                        c['ivar'] = [[1.0] * nx for _ in range(nt)]
+                    c['ivar'][nt - 1] = [0.0] * nx
+                    tag += '-maskedrow'
+                calls.append((tag, c))
                 break
         else:
             raise RuntimeError('could not generate a trace case')
@@ -346,6 +375,30 @@ def gen_eval(ctx):
     return calls
 
 
+def gen_history(ctx, evals, traces):
+    """multi-call histories on ONE TraceSet object (built from a stored record or by fitting)"""
+    rng = ctx.rng
+    calls = []
+    makes = [c for _, c in evals[:ctx.n(8, 60)]] + [c for _, c in traces[:ctx.n(4, 30)] if not c.get('ydtype')]
+    for k, mk in enumerate(makes):
+        nt = len(mk['coeff']) if mk['f'] == 'eval' else len(mk['xpos'])
+        lo = mk['xmin'] if mk.get('xmin') is not None else min(min(r) for r in mk['xpos'])
+        hi = mk['xmax'] if mk.get('xmax') is not None else max(max(r) for r in mk['xpos'])
+        npt = rng.randint(2, 5)
+        xp = [[C.dyadic(rng, lo, hi, 3) for _ in range(npt)] for _ in range(nt)]
+        d = C.dyadic(rng, 0.25, 3, 2)
+        variants = [
+            [{'op': 'xy'}, {'op': 'mutate', 'what': 'both', 'delta': 0.5}, {'op': 'xy'}],
+            [{'op': 'xy'}, {'op': 'shift', 'dxmin': d, 'dxmax': d}, {'op': 'xy'}],
+            [{'op': 'xy'}, {'op': 'shift', 'dxmin': 0.0, 'dxmax': 2.0}, {'op': 'xy'}, {'op': 'mutate', 'what': 'y', 'delta': -1.0},
+             {'op': 'xy', 'xpos': xp}],
+            [{'op': 'xy', 'xpos': xp}, {'op': 'mutate', 'what': 'both', 'delta': 0.25}, {'op': 'scalecoeff', 'factor': 2.0},
+             {'op': 'xy', 'xpos': xp, 'ignore_jump': True}, {'op': 'xy'}, {'op': 'mutate', 'what': 'x', 'delta': -0.5}, {'op': 'xy'}],
+        ]
+        calls.append(('history', {'f': 'history', 'func': mk['func'], 'make': public(mk), 'ops': variants[k % len(variants)]}))
+    return calls
+
+
 # ------------------------------------------------------------------ case terms
 def fit_args_term(c):
     n = len(c['x'])
@@ -382,6 +435,19 @@ def case_term(c, r):
             FTERM[c['func']], c['ncoeff'], oq(c['xmin']), oq(c['xmax']), jump_term(c['jump']),
             qm(c['xpos']), qm(c['ypos']), qm(ivar), bm(inmask),
             qm(o['coeff']), qm(o['yfit']), qm(o['xy_x']), qm(o['xy_y']), qm(o['grid_x']), qm(o['grid_y']))
+    if f == 'history':
+        # the LAST evaluation of the history, judged as an evaluation of a trace set in the object's final state
+        if 'ok' not in r:
+            return None
+        o = r['ok']
+        mk = c['make']
+        last = o['evals'][-1]
+        lop = [op for op in c['ops'] if op['op'] == 'xy'][-1]
+        ncoeff = len(o['coeff'][0])
+        t = '{| ts_func := %s; ts_ncoeff := %d%%nat; ts_xmin := %s; ts_xmax := %s; ts_jump := %s; ts_coeff := %s |}' % (
+            FTERM[mk['func']], ncoeff, C.qlit(o['xmin']), C.qlit(o['xmax']), jump_term(mk.get('jump')), qm(o['coeff']))
+        return '(CEval %s %s %s %s %s)' % (t, C.optlit(lop.get('xpos'), qm), C.boollit(bool(lop.get('ignore_jump'))),
+                                           qm(last['x']), qm(last['y']))
     if f == 'eval':
         if 'ok' not in r:
             return None
@@ -415,13 +481,16 @@ def correspond(ctx, proof_ok=True):
     ok, log = C.coq_make(['C13/Model.vo'])
     if not ok:
         raise RuntimeError('C13/Model.v does not build:\n' + log[-2000:])
-    calls = gen_basis(ctx) + gen_fit(ctx) + gen_trace(ctx) + gen_eval(ctx)
+    traces, evals = gen_trace(ctx), gen_eval(ctx)
+    calls = gen_basis(ctx) + gen_fit(ctx) + traces + evals + gen_history(ctx, evals, traces)
     results, pydl_file = run_calls(calls)
     ctx.coverage['pydl_file'] = pydl_file
 
     terms = []      # (call index, term)
     direct = []     # (signature, summary, replay)
     for ci, ((tag, c), r) in enumerate(zip(calls, results)):
+        if c.get('_nocoq') and 'ok' in r:
+            continue
         t = case_term(c, r)
         if t is None:
             # the implementation failed where a value is required
@@ -449,6 +518,50 @@ def correspond(ctx, proof_ok=True):
 
     # ---- direct behavioural checks on the real code
     nd = 0
+    # generic guards: arguments untouched, repeatable, history independent, input classes agree with float64
+    for ci, ((tag, c), r) in enumerate(zip(calls, results)):
+        if 'ok' not in r:
+            continue
+        o = r['ok'] if isinstance(r['ok'], dict) else {}
+        changed = r.get('args_changed') or o.get('args_changed') or []
+        if c['f'] == 'history':
+            changed = sorted(set(sum((e['args_changed'] for e in o['evals']), [])))
+        nd += 1
+        if changed:
+            direct.append(('C13:%s:argument-modified' % c['f'], '%s modified its argument(s) %s' % (tag, changed),
+                           {'kind': 'failing-input', 'call': public(c), 'impl_result': r}))
+        if c['f'] == 'fit' and not r.get('repeatable', True):
+            direct.append(('C13:fit:not-repeatable', 'the same func_fit call gave another answer after its first result was edited in place',
+                           {'kind': 'failing-input', 'call': public(c), 'impl_result': r}))
+        if c['f'] == 'fit' and 'ref' in r:
+            nd += 1
+            tol = 1e-3 if 'f4' in (c.get('xdtype'), c.get('ydtype')) else 1e-9
+            for key in ('res', 'yfit'):
+                ref = r['ref'][key]
+                scale = max([abs(v) for v in ref] + [1e-300])
+                if len(ref) != len(o[key]) or any(abs(a - b) > tol * scale for a, b in zip(o[key], ref)):
+                    direct.append(('C13:fit:dtype-class:%s' % key,
+                                   'func_fit with x dtype %s / y dtype %s: %s = %r differs from the float64 result %r of the same problem' % (
+                                       c.get('xdtype', 'd'), c.get('ydtype', 'd'), key, o[key], ref),
+                                   {'kind': 'failing-input', 'call': public(c), 'impl_result': r}))
+                    break
+        if c['f'] == 'history':
+            for e in o['evals']:
+                nd += 1
+                why = None
+                if not e['finite']:
+                    why = 'non-finite values'
+                elif not e['independent']:
+                    why = 'differs from the same evaluation on a pristine copy of the object that only saw the attribute changes'
+                elif e.get('grid_ok') is False:
+                    why = 'the default grid does not span xmin..xmax (%r..%r) in unit steps' % (e['xmin'], e['xmax'])
+                if why:
+                    direct.append(('C13:history:%s' % ('history-dependent' if not e['independent'] else 'default-grid'),
+                                   'evaluation at step %d of the history %s: %s' % (
+                                       e['index'], [op['op'] for op in c['ops']], why),
+                                   {'kind': 'failing-input', 'call': public(c), 'history': c['ops'], 'step': e['index'],
+                                    'impl_result': {'ok': {'evals': [e]}}}))
+                    break
     for ci, ((tag, c), r) in enumerate(zip(calls, results)):
         if c['f'] != 'fit':
             continue
@@ -460,9 +573,6 @@ def correspond(ctx, proof_ok=True):
                                {'kind': 'failing-input', 'call': public(c), 'impl_result': r}))
             continue
         res = r['ok']['res']
-        if not r.get('inputs_unchanged', True):
-            direct.append(('C13:fit:inputs-modified', 'func_fit modified its x/y arguments',
-                           {'kind': 'failing-input', 'call': public(c), 'impl_result': r}))
         ngood = len(c['x']) if c['w'] is None else sum(1 for v in c['w'] if v > 0)
         if c['ia'] is not None and ngood >= 2:
             nd += 1
